@@ -30,6 +30,7 @@ open Gwb
 #print axioms C05_gaussian_table
 #print axioms C05_gaussian
 #print axioms C05_line_linear
+#print axioms C05_line_linear_degenerate
 #print axioms C05_line_adiabatic
 #print axioms C05_slab_smooth
 #print axioms C05_fault_smooth_code
@@ -66,6 +67,7 @@ open Gwb
 #check @C05_gaussian_table
 #check @C05_gaussian
 #check @C05_line_linear
+#check @C05_line_linear_degenerate
 #check @C05_line_adiabatic
 #check @C05_slab_smooth
 #check @C05_fault_smooth_code
